@@ -7,7 +7,7 @@ sys.path.insert(0, HERE)
 from sa import selftest
 from sa.build import AnalysisBroken
 from sa.ctx import Check
-CROSS = {'C21-13': ['C19'], 'C35-12': ['C23'], 'C26-12': ['C35'], 'C27-13': ['C29'], 'C24-10': ['C03'], 'C22-8': ['C07'], 'C23-9': ['C36'], 'C21-8': ['C02'], 'C21-9': ['C03'], 'C08-9': ['C13'], 'C13-10': ['C08'], 'C12-8': ['C20'], 'C12-9': ['C20'], 'C05-9': ['C06'], 'C39-6': ['C14'], 'C35-6': ['C28'], 'C29-7': ['C01'], 'C24-7': ['C03'], 'C20-7': ['C19'], 'C13-5': ['C08'], 'C13-6': ['C08'], 'C08-6': ['C13'], 'C03-6': ['C01'], 'C11-5': ['C09'], 'C07-5': ['C06'], 'C01-5': ['C02'], 'C05-5': ['C06'], 'C05-6': ['C01'], 'C29-4': ['C01'], 'C35-3': ['C18'], 'C35-4': ['C09'], 'C35-5': ['C14'], 'C16-3': ['C08'], 'C22-3': ['C07'], 'C20-3': ['C19'], 'C11-3': ['C10'], 'C13-2': ['C08'], 'C13-4': ['C08'], 'C26-1': ['C25'], 'C25-2': ['C26'], 'C20-2': ['C12'], 'C12-1': ['C20'], 'C19-1': ['C20'], 'C28-2': ['C19'], 'C35-1': ['C16']}
+CROSS = {'C02-13': ['C06'], 'C14-11': ['C09'], 'C21-13': ['C19'], 'C35-12': ['C23'], 'C26-12': ['C35'], 'C27-13': ['C29'], 'C24-10': ['C03'], 'C22-8': ['C07'], 'C23-9': ['C36'], 'C21-8': ['C02'], 'C21-9': ['C03'], 'C08-9': ['C13'], 'C13-10': ['C08'], 'C12-8': ['C20'], 'C12-9': ['C20'], 'C05-9': ['C06'], 'C39-6': ['C14'], 'C35-6': ['C28'], 'C29-7': ['C01'], 'C24-7': ['C03'], 'C20-7': ['C19'], 'C13-5': ['C08'], 'C13-6': ['C08'], 'C08-6': ['C13'], 'C03-6': ['C01'], 'C11-5': ['C09'], 'C07-5': ['C06'], 'C01-5': ['C02'], 'C05-5': ['C06'], 'C05-6': ['C01'], 'C29-4': ['C01'], 'C35-3': ['C18'], 'C35-4': ['C09'], 'C35-5': ['C14'], 'C16-3': ['C08'], 'C22-3': ['C07'], 'C20-3': ['C19'], 'C11-3': ['C10'], 'C13-2': ['C08'], 'C13-4': ['C08'], 'C26-1': ['C25'], 'C25-2': ['C26'], 'C20-2': ['C12'], 'C12-1': ['C20'], 'C19-1': ['C20'], 'C28-2': ['C19'], 'C35-1': ['C16']}
 only = sys.argv[1:]
 res_file = os.path.join(HERE, 'seeded', 'detection.json')
 res = json.load(open(res_file)) if os.path.exists(res_file) else {}
